@@ -156,4 +156,465 @@ theorem parseColonNum_suffix {bs r : Bytes} {o : Option Nat}
       rw [← h.2]
       exact (parseUsize_suffix h2).1.trans (stripPrefix_suffix h1).1
 
+/-! ### newline-free strings -/
+
+theorem mem_takeWhile_imp {α : Type} {p : α → Bool} {l : List α} {a : α}
+    (h : a ∈ l.takeWhile p) : p a = true := by
+  have := List.all_takeWhile (p := p) (l := l)
+  rw [List.all_eq_true] at this
+  exact this a h
+
+/-- no line-terminator byte -/
+def NoNl (s : Bytes) : Prop := ∀ b ∈ s, isNewline b = false
+
+theorem NoNl.nil : NoNl [] := by intro b hb; cases hb
+
+theorem NoNl.of_subset {s t : Bytes} (h : NoNl t) (hs : ∀ b ∈ s, b ∈ t) : NoNl s :=
+  fun b hb => h b (hs b hb)
+
+theorem NoNl.of_suffix {s t : Bytes} (h : NoNl t) (hs : s <:+ t) : NoNl s :=
+  h.of_subset (fun _ hb => hs.subset hb)
+
+theorem NoNl.append_left {s t : Bytes} (h : NoNl (s ++ t)) : NoNl s :=
+  h.of_subset (fun _ hb => List.mem_append_left _ hb)
+
+theorem NoNl.append_right {s t : Bytes} (h : NoNl (s ++ t)) : NoNl t :=
+  h.of_subset (fun _ hb => List.mem_append_right _ hb)
+
+theorem NoNl.append {s t : Bytes} (hs : NoNl s) (ht : NoNl t) : NoNl (s ++ t) := by
+  intro b hb
+  rcases List.mem_append.mp hb with h | h
+  · exact hs b h
+  · exact ht b h
+
+theorem parseUntil_noNl {p : UInt8 → Bool} (hp : ∀ b, isNewline b = true → p b = true)
+    {bs s r : Bytes} (h : parseUntil p bs = some (s, r)) : NoNl s := by
+  obtain ⟨e, _, _, _⟩ := parseUntil_eq h
+  intro b hb
+  rw [e] at hb
+  have := mem_takeWhile_imp hb
+  cases hn : isNewline b with
+  | false => rfl
+  | true => rw [hp b hn] at this; simp at this
+
+theorem parseUntilNoNewline_noNl {p : UInt8 → Bool} {bs s r : Bytes}
+    (h : parseUntilNoNewline p bs = some (s, r)) : NoNl s :=
+  parseUntil_noNl (by intro b hb; simp [hb]) (parseUntilNoNewline_eq h)
+
+/-! ### `trim` only removes bytes -/
+
+local macro "sfx_close " h:ident : tactic =>
+  `(tactic| (simp only [Option.some.injEq] at $h:ident; subst $h:ident;
+             first | exact List.suffix_refl _ | exact ⟨[_], rfl⟩ | exact ⟨[_, _], rfl⟩
+                   | exact ⟨[_, _, _], rfl⟩))
+
+theorem stripWs_suffix {bs r : Bytes} (h : stripWs bs = some r) : r <:+ bs := by
+  unfold stripWs at h
+  split at h
+  all_goals first
+    | (cases h; done)
+    | (sfx_close h)
+    | (split at h
+       · sfx_close h
+       · cases h)
+
+theorem stripWsRev_suffix {bs r : Bytes} (h : stripWsRev bs = some r) : r <:+ bs := by
+  unfold stripWsRev at h
+  split at h
+  all_goals first
+    | (cases h; done)
+    | (sfx_close h)
+    | (split at h
+       · sfx_close h
+       · cases h)
+    | (split at h
+       · sfx_close h
+       · split at h
+         · sfx_close h
+         · cases h)
+
+theorem trimStartFuel_suffix (n : Nat) (bs : Bytes) : trimStartFuel n bs <:+ bs := by
+  induction n generalizing bs with
+  | zero => exact List.suffix_refl _
+  | succ n ih =>
+    simp only [trimStartFuel]
+    split
+    · rename_i r h
+      exact (ih r).trans (stripWs_suffix h)
+    · exact List.suffix_refl _
+
+theorem trimEndRevFuel_suffix (n : Nat) (bs : Bytes) : trimEndRevFuel n bs <:+ bs := by
+  induction n generalizing bs with
+  | zero => exact List.suffix_refl _
+  | succ n ih =>
+    simp only [trimEndRevFuel]
+    split
+    · rename_i r h
+      exact (ih r).trans (stripWsRev_suffix h)
+    · exact List.suffix_refl _
+
+theorem mem_trim {s : Bytes} {b : UInt8} (h : b ∈ trim s) : b ∈ s := by
+  unfold trim trimEnd trimStart at h
+  rw [List.mem_reverse] at h
+  have h1 := (trimEndRevFuel_suffix _ _).subset h
+  rw [List.mem_reverse] at h1
+  exact (trimStartFuel_suffix _ _).subset h1
+
+theorem NoNl.trim {s : Bytes} (h : NoNl s) : NoNl (trim s) :=
+  h.of_subset (fun _ hb => mem_trim hb)
+
+theorem splitOnce_mem {c : UInt8} {s a b : Bytes} (h : splitOnce c s = some (a, b)) :
+    (∀ x ∈ a, x ∈ s) ∧ (∀ x ∈ b, x ∈ s) := by
+  unfold splitOnce at h
+  split at h
+  · cases h
+  · rename_i d r heq
+    simp only [Option.some.injEq, Prod.mk.injEq] at h
+    obtain ⟨rfl, rfl⟩ := h
+    constructor
+    · intro x hx; exact (List.takeWhile_prefix _).subset hx
+    · intro x hx
+      have : s.dropWhile (· != c) <:+ s := List.dropWhile_suffix _
+      rw [heq] at this
+      exact this.subset (List.mem_cons_of_mem _ hx)
+
+theorem splitForeign_noNl {s : Bytes} (h : NoNl s) :
+    NoNl (splitForeign s).1 ∧ ∀ c, (splitForeign s).2 = some c → NoNl c := by
+  unfold splitForeign
+  split
+  · rename_i c m heq
+    unfold rsplitOnce at heq
+    split at heq
+    · cases heq
+    · rename_i a b h2
+      simp only [Option.some.injEq, Prod.mk.injEq] at heq
+      obtain ⟨rfl, rfl⟩ := heq
+      obtain ⟨ha, hb⟩ := splitOnce_mem h2
+      constructor
+      · exact h.of_subset (fun x hx => by simpa using ha x (by simpa using hx))
+      · intro c hc
+        simp only [Option.some.injEq] at hc
+        subst hc
+        exact h.of_subset (fun x hx => by simpa using hb x (by simpa using hx))
+  · exact ⟨h, by intro c hc; cases hc⟩
+
+/-! ### record parsers: suffix, strict progress, newline-free fields -/
+
+def RecOK : Record → Prop
+  | .header k v => NoNl k ∧ ∀ x, v = some x → NoNl x
+  | .cls o b => NoNl o ∧ NoNl b
+  | .field ty o b => NoNl ty ∧ NoNl o ∧ NoNl b
+  | .method ty o b a c _ => NoNl ty ∧ NoNl o ∧ NoNl b ∧ NoNl a ∧ ∀ x, c = some x → NoNl x
+
+theorem isNewline_imp_self : ∀ b, isNewline b = true → isNewline b = true := fun _ h => h
+
+theorem isNewline_imp_colon :
+    ∀ b, isNewline b = true → (fun c => c == 58 || isNewline c) b = true := by
+  intro b h; simp [h]
+
+theorem litSourceFile_noNl : NoNl litSourceFile := by
+  intro b hb
+  simp only [litSourceFile, List.mem_cons, List.not_mem_nil, or_false] at hb
+  rcases hb with h | h | h | h | h | h | h | h | h | h <;> subst h <;> decide
+
+theorem parseClass_inv {bs rest : Bytes} {rec : Record} (h : parseClass bs = some (rec, rest)) :
+    rest <:+ bs ∧ rest.length < bs.length ∧ RecOK rec := by
+  unfold parseClass at h
+  split at h
+  · cases h
+  · rename_i o b1 h1
+    split at h
+    · cases h
+    · rename_i b2 h2
+      split at h
+      · cases h
+      · rename_i ob b3 h3
+        split at h
+        · cases h
+        · rename_i b4 h4
+          simp only [Option.some.injEq, Prod.mk.injEq] at h
+          obtain ⟨rfl, rfl⟩ := h
+          have s1 := parseUntilNoNewline_suffix h1
+          have s2 := stripPrefix_suffix h2
+          have s3 := parseUntilNoNewline_suffix h3
+          have s4 := stripPrefix_suffix h4
+          have s5 := consumeNewlines_suffix b4
+          refine ⟨s5.trans <| s4.1.trans <| s3.trans <| s2.1.trans s1, ?_,
+            parseUntilNoNewline_noNl h1, parseUntilNoNewline_noNl h3⟩
+          have := s1.length_le; have := s3.length_le; have := s5.length_le
+          have := s2.2; have := s4.2
+          simp only [litArrow, List.length_cons, List.length_nil] at *
+          omega
+
+theorem parseHeader_inv {bs rest : Bytes} {rec : Record} (h : parseHeader bs = some (rec, rest)) :
+    rest <:+ bs ∧ rest.length < bs.length ∧ RecOK rec := by
+  unfold parseHeader at h
+  split at h
+  · cases h
+  · rename_i b1 h1
+    have s1 := stripPrefix_suffix h1
+    simp only [List.length_cons, List.length_nil] at s1
+    split at h
+    · rename_i b2 h2
+      have s2 := stripPrefix_suffix h2
+      split at h
+      · cases h
+      · rename_i v b3 h3
+        have s3 := parseUntilNoNewline_suffix h3
+        split at h
+        · cases h
+        · rename_i b4 h4
+          have s4 := stripPrefix_suffix h4
+          simp only [Option.some.injEq, Prod.mk.injEq] at h
+          obtain ⟨rfl, rfl⟩ := h
+          have s5 := consumeNewlines_suffix b4
+          refine ⟨s5.trans <| s4.1.trans <| s3.trans <| s2.1.trans s1.1, ?_,
+            litSourceFile_noNl, ?_⟩
+          · have := s2.1.length_le; have := s3.length_le; have := s5.length_le
+            have := s4.1.length_le
+            omega
+          · intro x hx
+            simp only [Option.some.injEq] at hx
+            subst hx
+            exact parseUntilNoNewline_noNl h3
+    · split at h
+      · cases h
+      · rename_i k b2 h2
+        have s2 := parseUntil_suffix h2
+        have hk : NoNl k := parseUntil_noNl isNewline_imp_colon h2
+        split at h
+        · rename_i b3 h3
+          have s3 := stripPrefix_suffix h3
+          split at h
+          · cases h
+          · rename_i v b4 h4
+            have s4 := parseUntil_suffix h4
+            have hv : NoNl v := parseUntil_noNl isNewline_imp_self h4
+            simp only [Option.some.injEq, Prod.mk.injEq] at h
+            obtain ⟨rfl, rfl⟩ := h
+            have s5 := consumeNewlines_suffix b4
+            refine ⟨s5.trans <| s4.trans <| s3.1.trans <| s2.trans s1.1, ?_, hk.trim, ?_⟩
+            · have := s2.length_le; have := s3.1.length_le; have := s5.length_le
+              have := s4.length_le
+              omega
+            · intro x hx
+              simp only [Option.some.injEq] at hx
+              subst hx
+              exact hv.trim
+        · simp only [Option.some.injEq, Prod.mk.injEq] at h
+          obtain ⟨rfl, rfl⟩ := h
+          have s5 := consumeNewlines_suffix b2
+          refine ⟨s5.trans <| s2.trans s1.1, ?_, hk.trim, ?_⟩
+          · have := s2.length_le; have := s5.length_le
+            omega
+          · intro x hx; cases hx
+
+theorem parseMember_inv {bs rest : Bytes} {rec : Record} (h : parseMember bs = some (rec, rest)) :
+    rest <:+ bs ∧ rest.length < bs.length ∧ RecOK rec := by
+  unfold parseMember at h
+  split at h
+  · cases h
+  rename_i b1 h1
+  have s1 := stripPrefix_suffix h1
+  simp only [litIndent, List.length_cons, List.length_nil] at s1
+  split at h
+  · cases h
+  rename_i se b2 h2
+  have s2 := parseLinePrefix_suffix h2
+  split at h
+  · cases h
+  rename_i ty b3 h3
+  have s3 := parseUntilNoNewline_suffix h3
+  have hty := parseUntilNoNewline_noNl h3
+  split at h
+  · cases h
+  rename_i b4 h4
+  have s4 := stripPrefix_suffix h4
+  split at h
+  · cases h
+  rename_i orig b5 h5
+  have s5 := parseUntilNoNewline_suffix h5
+  have horig := parseUntilNoNewline_noNl h5
+  have s15 : b5 <:+ bs := s5.trans <| s4.1.trans <| s3.trans <| s2.trans s1.1
+  have l15 : b5.length < bs.length := by
+    have := s5.length_le; have := s4.1.length_le; have := s3.length_le; have := s2.length_le
+    omega
+  split at h
+  · -- field
+    split at h
+    · cases h
+    rename_i b6 h6
+    have s6 := stripPrefix_suffix h6
+    split at h
+    · cases h
+    rename_i ob b7 h7
+    have s7 := parseUntil_suffix h7
+    simp only [Option.some.injEq, Prod.mk.injEq] at h
+    obtain ⟨rfl, rfl⟩ := h
+    have s8 := consumeNewlines_suffix b7
+    refine ⟨s8.trans <| s7.trans <| s6.1.trans s15, ?_, hty, horig,
+      parseUntil_noNl isNewline_imp_self h7⟩
+    have := s8.length_le; have := s7.length_le; have := s6.1.length_le
+    omega
+  · -- method
+    rename_i b6 h6
+    have s6 := stripPrefix_suffix h6
+    split at h
+    · cases h
+    rename_i args b7 h7
+    have s7 := parseUntilNoNewline_suffix h7
+    split at h
+    · cases h
+    rename_i b8 h8
+    have s8 := stripPrefix_suffix h8
+    split at h
+    · cases h
+    rename_i os b9 h9
+    have s9 := parseColonNum_suffix h9
+    split at h
+    · cases h
+    rename_i oe b10 h10
+    have s10 : b10 <:+ b9 := by
+      split at h10
+      · exact parseColonNum_suffix h10
+      · simp only [Option.some.injEq, Prod.mk.injEq] at h10
+        rw [← h10.2]; exact List.suffix_refl _
+    split at h
+    · cases h
+    rename_i b11 h11
+    have s11 := stripPrefix_suffix h11
+    split at h
+    · cases h
+    rename_i ob b12 h12
+    have s12 := parseUntil_suffix h12
+    simp only [Option.some.injEq, Prod.mk.injEq] at h
+    obtain ⟨rfl, rfl⟩ := h
+    have s13 := consumeNewlines_suffix b12
+    obtain ⟨hn, hc⟩ := splitForeign_noNl horig
+    refine ⟨s13.trans <| s12.trans <| s11.1.trans <| s10.trans <| s9.trans <| s8.1.trans <|
+      s7.trans <| s6.1.trans s15, ?_, hty, hn, parseUntil_noNl isNewline_imp_self h12,
+      parseUntilNoNewline_noNl h7, hc⟩
+    have := s13.length_le; have := s12.length_le; have := s11.1.length_le
+    have := s10.length_le; have := s9.length_le; have := s8.1.length_le
+    have := s7.length_le; have := s6.1.length_le
+    omega
+
+/-! ### `parseRecord` -/
+
+theorem parseRecord_cases (bs : Bytes) :
+    (∃ r rest, (parseHeader (consumeNewlines bs) = some (r, rest) ∨
+                parseMember (consumeNewlines bs) = some (r, rest) ∨
+                parseClass (consumeNewlines bs) = some (r, rest)) ∧
+        parseRecord bs = (.ok r, rest)) ∨
+    parseRecord bs = (.err (splitLine (consumeNewlines bs)).1, (splitLine (consumeNewlines bs)).2) := by
+  unfold parseRecord
+  simp only
+  split
+  · rename_i r rest heq
+    left
+    refine ⟨r, rest, ?_, rfl⟩
+    split at heq
+    · exact Or.inl heq
+    · split at heq
+      · exact Or.inr (Or.inl heq)
+      · exact Or.inr (Or.inr heq)
+  · right; rfl
+
+theorem parseRecord_rest_suffix (bs : Bytes) : (parseRecord bs).2 <:+ bs := by
+  rcases parseRecord_cases bs with ⟨r, rest, h, e⟩ | e
+  · rw [e]
+    have : rest <:+ consumeNewlines bs := by
+      rcases h with h | h | h
+      · exact (parseHeader_inv h).1
+      · exact (parseMember_inv h).1
+      · exact (parseClass_inv h).1
+    exact this.trans (consumeNewlines_suffix bs)
+  · rw [e]
+    exact (splitLine_suffix _).trans (consumeNewlines_suffix bs)
+
+theorem parseRecord_progress (bs : Bytes) (hne : bs ≠ []) :
+    (parseRecord bs).2.length < bs.length := by
+  have hc := (consumeNewlines_suffix bs).length_le
+  rcases parseRecord_cases bs with ⟨r, rest, h, e⟩ | e
+  · rw [e]
+    have : rest.length < (consumeNewlines bs).length := by
+      rcases h with h | h | h
+      · exact (parseHeader_inv h).2.1
+      · exact (parseMember_inv h).2.1
+      · exact (parseClass_inv h).2.1
+    simp only; omega
+  · rw [e]
+    simp only
+    by_cases hc0 : consumeNewlines bs = []
+    · rw [hc0]; simp [splitLine]; exact List.length_pos_iff.mpr hne
+    · have := splitLine_progress _ hc0
+      omega
+
+theorem parseRecord_ok_recOK {bs rest : Bytes} {r : Record} (h : parseRecord bs = (.ok r, rest)) :
+    RecOK r := by
+  rcases parseRecord_cases bs with ⟨r', rest', h', e⟩ | e
+  · rw [e] at h
+    simp only [Prod.mk.injEq, Item.ok.injEq] at h
+    obtain ⟨rfl, rfl⟩ := h
+    rcases h' with h | h | h
+    · exact (parseHeader_inv h).2.2
+    · exact (parseMember_inv h).2.2
+    · exact (parseClass_inv h).2.2
+  · rw [e] at h; simp at h
+
+/-! ### the fuel suffices -/
+
+theorem recordsFuel_enough (n : Nat) (bs : Bytes) (h : bs.length ≤ n) :
+    recordsFuel n bs = recordsFuel bs.length bs := by
+  induction n using Nat.strongRecOn generalizing bs with
+  | _ n ih =>
+    cases bs with
+    | nil => cases n <;> simp [recordsFuel]
+    | cons b bs =>
+      cases n with
+      | zero => simp at h
+      | succ n =>
+        have hp := parseRecord_progress (b :: bs) (by simp)
+        simp only [List.length_cons] at hp h ⊢
+        simp only [recordsFuel, List.isEmpty_cons, Bool.false_eq_true, if_false]
+        rw [ih n (by omega) _ (by omega), ih bs.length (by omega) _ (by omega)]
+
+theorem records_unfold (bs : Bytes) (h : bs ≠ []) :
+    records bs = (parseRecord bs).1 :: records (parseRecord bs).2 := by
+  cases bs with
+  | nil => exact absurd rfl h
+  | cons b bs =>
+    have hp := parseRecord_progress (b :: bs) (by simp)
+    simp only [List.length_cons] at hp
+    unfold records
+    simp only [List.length_cons, recordsFuel, List.isEmpty_cons, Bool.false_eq_true, if_false]
+    rw [recordsFuel_enough bs.length _ (by omega)]
+
+theorem records_nil : records [] = [] := rfl
+
+theorem records_count (bs : Bytes) : (records bs).length ≤ bs.length := by
+  generalize hn : bs.length = n
+  induction n using Nat.strongRecOn generalizing bs with
+  | _ n ih =>
+    by_cases hb : bs = []
+    · subst hb; simp [records_nil]
+    · rw [records_unfold bs hb]
+      have hp := parseRecord_progress bs hb
+      have := ih _ (by omega) (parseRecord bs).2 rfl
+      simp only [List.length_cons]
+      omega
+
+theorem records_ok_recOK (bs : Bytes) : ∀ r, Item.ok r ∈ records bs → RecOK r := by
+  generalize hn : bs.length = n
+  induction n using Nat.strongRecOn generalizing bs with
+  | _ n ih =>
+    intro r hr
+    by_cases hb : bs = []
+    · subst hb; simp [records_nil] at hr
+    · rw [records_unfold bs hb] at hr
+      have hp := parseRecord_progress bs hb
+      rcases List.mem_cons.mp hr with h | h
+      · exact parseRecord_ok_recOK (bs := bs) (rest := (parseRecord bs).2) (by rw [h])
+      · exact ih _ (by omega) (parseRecord bs).2 rfl r h
+
 end PG
